@@ -514,6 +514,7 @@ def run_oracle(prop, script_files, seed, tier, workdir):
     """Runs the implementation-level oracle on the script files (in parallel).
     Returns (fails, stats, known) where fails = [(caseid, kind, detail)]."""
     exe = os.path.join(BIN, "oracle")
+    open_ids = {k.get("id") for k in load_known_findings()}
     if not os.path.exists(exe):
         return [], {}, []
     procs = []
@@ -544,7 +545,12 @@ def run_oracle(prop, script_files, seed, tier, workdir):
                 fails.append((parts[1], parts[2], parts[3] if len(parts) > 3 else ""))
             elif line.startswith("OKNOWN "):
                 parts = line.split(" ", 3)
-                known.append((parts[1], parts[2], parts[3] if len(parts) > 3 else ""))
+                # the oracle recognises the class and shape of a finding; only findings that are
+                # still OPEN in KNOWN_FINDINGS.txt are suppressed - a fixed one that comes back is a failure
+                if parts[2] in open_ids:
+                    known.append((parts[1], parts[2], parts[3] if len(parts) > 3 else ""))
+                else:
+                    fails.append((parts[1], "regression-of-fixed-finding-" + parts[2], parts[3] if len(parts) > 3 else ""))
             elif line.startswith("OSTAT "):
                 parts = line.split(" ", 2)
                 try:
